@@ -199,4 +199,124 @@ theorem psk_ids_swapped (h : tunnelParams name node1 node2 local1 remote1 peer1 
         auth_all b _ _ (by simp [authStems] : "vpnconn_psk_foreign_id_type" ∈ authStems), e, hp, hl, hr]
       simp [lastVal, k1, k2, h12, h21]
 
+/-- **The right-hand configuration is the documented counterpart of the left-hand one**, as generated: the left
+end carries the requested types, the right end carries the counterpart table of the docstring (site ↔ `custom`,
+point ↔ `externalip`/`internetip`, peer always `IP`), the sides are `left`/`right`, both carry the tunnel name;
+and a tunnel is only ever built for the 3 × 3 × 2 supported types. -/
+theorem right_is_counterpart_generated (h : tunnelParams name node1 node2 local1 remote1 peer1 auth = .ok t)
+    (wf : WF name node1 node2) :
+    ∃ lt rt pt, local1.get? "type" = some lt ∧ remote1.get? "type" = some rt ∧ peer1.get? "type" = some pt ∧
+      lt ∈ ["nic", "internetip", "custom"] ∧ rt ∈ ["custom", "externalip", "modeconfig"] ∧ pt ∈ ["ip", "dynip"] ∧
+      t.L "vpnconn_lan_type" = some (upper lt) ∧ t.L "vpnconn_remote_type" = some (upper rt) ∧
+      t.L "vpnconn_peer_type" = some (upper pt) ∧
+      t.R "vpnconn_lan_type" = some (upper (counterLocal lt rt)) ∧
+      t.R "vpnconn_remote_type" = some (upper (counterRemote lt)) ∧ t.R "vpnconn_peer_type" = some "IP" ∧
+      t.L "vpn_side" = some "left" ∧ t.R "vpn_side" = some "right" ∧
+      t.L "vpnconn" = some name ∧ t.R "vpnconn" = some name := by
+  obtain ⟨b⟩ := tunnelParams_ok h
+  have h12 := wf.h12
+  have h21 := Ne.symm wf.h12
+  obtain ⟨lt, rt, pt, hlt, hrt, hpt, hl2, hr2, hp2⟩ := variant_types b.hv
+  obtain ⟨tl1, tl2, tr1, tr2, e1, e2, e3, e4, ea⟩ := mainPart_ok b.h0
+  rw [hlt] at e1; rw [hl2] at e2; rw [hrt] at e3; rw [hr2] at e4
+  cases e1; cases e2; cases e3; cases e4
+  obtain ⟨lt', hlt', hlc⟩ := localPart_ok b.h1
+  obtain ⟨rt', hrt', hrc⟩ := remotePart_ok b.h2
+  obtain ⟨pt', pt2, hpt', hpt2, _, _, hpc⟩ := peerPart_ok b.h3
+  rw [hlt] at hlt'; rw [hrt] at hrt'; rw [hpt] at hpt'; rw [hp2] at hpt2
+  cases hlt'; cases hrt'; cases hpt'; cases hpt2
+  refine ⟨lt, rt, pt, hlt, hrt, hpt, ?_, ?_, ?_, ?_⟩
+  · rcases hlc with ⟨rfl, _⟩ | ⟨rfl, _⟩ | ⟨rfl, _⟩ <;> simp
+  · rcases hrc with ⟨rfl, _⟩ | ⟨rfl, _⟩ | ⟨rfl, _⟩ <;> simp
+  · rcases hpc with ⟨rfl, _⟩ | ⟨rfl, _⟩ <;> simp
+  · simp only [b.L_eq wf _ (mem_gen _ (by simp [mainStems] : "vpnconn_lan_type" ∈ mainStems ∨ _)),
+      b.R_eq wf _ (mem_gen _ (by simp [mainStems] : "vpnconn_lan_type" ∈ mainStems ∨ _)),
+      b.L_eq wf _ (mem_gen _ (by simp [mainStems] : "vpnconn_remote_type" ∈ mainStems ∨ _)),
+      b.R_eq wf _ (mem_gen _ (by simp [mainStems] : "vpnconn_remote_type" ∈ mainStems ∨ _)),
+      b.L_eq wf _ (mem_gen _ (by simp [mainStems] : "vpn_side" ∈ mainStems ∨ _)),
+      b.R_eq wf _ (mem_gen _ (by simp [mainStems] : "vpn_side" ∈ mainStems ∨ _)),
+      b.L_eq wf _ (mem_gen _ (by simp [mainStems] : "vpnconn" ∈ mainStems ∨ _)),
+      b.R_eq wf _ (mem_gen _ (by simp [mainStems] : "vpnconn" ∈ mainStems ∨ _)),
+      b.L_eq wf _ (mem_gen _ (by simp [peerStems] : "vpnconn_peer_type" ∈ mainStems ∨ _)),
+      b.R_eq wf _ (mem_gen _ (by simp [peerStems] : "vpnconn_peer_type" ∈ mainStems ∨ _)),
+      main_all b _ _ (by simp [mainStems] : "vpnconn_lan_type" ∈ mainStems),
+      main_all b _ _ (by simp [mainStems] : "vpnconn_remote_type" ∈ mainStems),
+      main_all b _ _ (by simp [mainStems] : "vpn_side" ∈ mainStems),
+      main_all b _ _ (by simp [mainStems] : "vpnconn" ∈ mainStems),
+      peer_all b _ _ (by simp [peerStems] : "vpnconn_peer_type" ∈ peerStems), ea]
+    rcases hpc with ⟨rfl, e⟩ | ⟨rfl, e⟩ <;> rw [e] <;> simp [lastVal, k2, h12, h21, upper]
+
+/-- **`_get_peer_variant` is an involution up to the documented defaults.**  Applying it to the derived right triple
+gives back the left triple, except that the "exotic" left values are replaced by their defaults (docstring: "Return
+default parameter where the left variant has used a more exotic value"): remote `modeconfig` comes back as `custom`, a
+`custom` local network without a `custom` remote comes back as `nic`, a `dynip` peer comes back as `ip`; the nic roles
+come back unchanged. -/
+theorem right_is_counterpart {ll lr lp rl rr rp l2 r2 p2 : SDict}
+    (hv : peerVariant ll lr lp = .ok (rl, rr, rp)) (hv2 : peerVariant rl rr rp = .ok (l2, r2, p2))
+    {lt rt pt : String} (hlt : ll.get? "type" = some lt) (hrt : lr.get? "type" = some rt)
+    (hpt : lp.get? "type" = some pt)
+    (hl : lt ∈ ["nic", "internetip", "custom"]) (hr : rt ∈ ["custom", "externalip", "modeconfig"])
+    (hp : pt ∈ ["ip", "dynip"]) :
+    l2.get? "type" = some (if lt = "custom" ∧ rt ≠ "custom" then "nic" else lt) ∧
+    r2.get? "type" = some (if rt = "modeconfig" then "custom" else rt) ∧
+    p2.get? "type" = some "ip" ∧
+    (lt = "nic" → l2.get? "nic" = ll.get? "nic") ∧
+    (rt = "custom" → lt ≠ "custom" → r2.get? "nic" = lr.get? "nic") ∧
+    p2.get? "nic" = lp.get? "nic" := by
+  obtain ⟨lt', rt', pt', h1, h2, h3, hrr, hrl, hrp⟩ := peerVariant_ok hv
+  rw [hlt] at h1; rw [hrt] at h2; rw [hpt] at h3
+  cases h1; cases h2; cases h3
+  obtain ⟨lt2, rt2, pt2, g1, g2, g3, grr, grl, grp⟩ := peerVariant_ok hv2
+  -- the types of the right triple, and of the triple derived from it, by the table
+  obtain ⟨_, _, _, v1, v2, _, w1, w2, _⟩ := variant_types hv
+  rw [hlt] at v1; rw [hrt] at v2; cases v1; cases v2
+  obtain ⟨_, _, _, x1, x2, _, y1, y2, y3⟩ := variant_types hv2
+  rw [w1] at x1; rw [w2] at x2; cases x1; cases x2
+  rw [w1] at g1; rw [w2] at g2; cases g1; cases g2
+  simp only [List.mem_cons, List.not_mem_nil, or_false] at hl hr hp
+  refine ⟨?_, ?_, y3, ?_, ?_, ?_⟩
+  · rw [y1]
+    rcases hl with rfl | rfl | rfl <;> rcases hr with rfl | rfl | rfl <;> simp [counterLocal, counterRemote]
+  · rw [y2]
+    rcases hl with rfl | rfl | rfl <;> rcases hr with rfl | rfl | rfl <;> simp [counterLocal, counterRemote]
+  · -- the nic role of a left site comes back
+    rintro rfl
+    have hne : counterLocal "nic" rt ≠ "custom" := by
+      rcases hr with rfl | rfl | rfl <;> simp [counterLocal]
+    rcases hrr with ⟨_, nic, hnic, rfl⟩ | ⟨hc, _⟩ | ⟨hc, _, _⟩
+    · rcases grl with ⟨_, hc, _⟩ | ⟨_, _, nic', hn', rfl⟩ | ⟨hc, _⟩ | ⟨hc, _, _⟩
+      · exact absurd hc hne
+      · simp only [SDict.get?] at hn'
+        simp only [show ¬ ("type" = "nic") by decide, if_false, if_true] at hn'
+        rw [hnic]; cases hn'; simp [SDict.get?]
+      · simp [counterRemote] at hc
+      · simp [counterRemote] at hc
+    · simp at hc
+    · simp at hc
+  · -- the nic role of a right site comes back
+    rintro rfl hlc
+    have hnic2 : counterLocal lt "custom" = "nic" := by simp [counterLocal, hlc]
+    rcases hrl with ⟨_, hc, _⟩ | ⟨_, _, nic, hnic, rfl⟩ | ⟨hc, _⟩ | ⟨hc, _, _⟩
+    · exact absurd hc hlc
+    · rcases grr with ⟨_, nic', hn', rfl⟩ | ⟨hc, _⟩ | ⟨hc, _, _⟩
+      · simp only [SDict.get?] at hn'
+        simp only [show ¬ ("type" = "nic") by decide, if_false, if_true] at hn'
+        rw [hnic]; cases hn'; simp [SDict.get?]
+      · rw [hnic2] at hc; simp at hc
+      · rw [hnic2] at hc; simp at hc
+    · simp at hc
+    · simp at hc
+  · -- the nic role of the peer comes back
+    rcases hrp with ⟨_, nic, hnic, rfl⟩ | ⟨hn1, hn2, _⟩
+    · simp only [SDict.get?, if_true] at g3
+      cases g3
+      rcases grp with ⟨_, nic', hn', rfl⟩ | ⟨_, hn, _⟩
+      · simp only [SDict.get?] at hn'
+        simp only [show ¬ ("type" = "nic") by decide, if_false, if_true] at hn'
+        rw [hnic]; cases hn'; simp [SDict.get?]
+      · exact absurd rfl hn
+    · rcases hp with rfl | rfl
+      · exact absurd rfl hn2
+      · exact absurd rfl hn1
+
 end I2N.Props.C19
